@@ -474,6 +474,12 @@ def _vf_call(f, *a, **k):
     if tf is _LRU_TYPE and core.ENG is not None:
         return _lru_call(f, a, k)
     if tf is type:
+        if f is str and a and isinstance(a[0], BaseException):
+            # an error message assembled from symbolic pieces (f-string): opaque text
+            try:
+                return f(*a, **k)
+            except TypeError:
+                return OpaqueMsg('<message of %s>' % type(a[0]).__name__)
         if f in _BUILTIN_TYPES:
             if a and _sym(a[0]):
                 return _builtin_func(f, a, k)
